@@ -215,8 +215,9 @@ def build_repodata(shape, r):
     elif pre == "junk":
         d["signatures"] = ["not", "a", "dict"]
     if shape["extra"]:
-        d["removed"] = ["x-1.0-0.tar.bz2"]
-        d["x-extra"] = {"z": None}
+        listed = [concrete_name(a) for a in (shape["pk"] or []) + (shape["cd"] or [])]
+        d["removed"] = ["x-1.0-0.tar.bz2"] + (r.sample(listed, r.randint(1, len(listed))) if listed and r.random() < 0.6 else [])
+        d["x-extra"] = {"z": None, "packages": {"decoy-1.0-0.tar.bz2": {"name": "decoy"}}}
     items = list(d.items())
     r.shuffle(items)
     return dict(items), metas
@@ -269,7 +270,7 @@ def setup_case(case, workdir, seed):
         if inp == "not_signable":
             md = r.choice([{"signed": md["signed"]}, {"signatures": [], "signed": md["signed"]}, [md], {**md, "extra": 1}])
         ctx["doc"] = md
-        data = twin_canon(md)
+        data = twin_canon(md) if r.random() < 0.5 else json.dumps(md, indent=4).encode()     # hand-edited / foreign-tool layout
         if inp == "not_json":
             data = b"[1, 2"
         with open(target, "wb") as f:
